@@ -12,7 +12,7 @@ from .source import norm, AnalysisError
 class Variant(object):
     """One self-test variant of one file."""
 
-    def __init__(self, name, kind, path, transform, expect=None, note=''):
+    def __init__(self, name, kind, path, transform, expect=None, note='', also=()):
         assert kind in ('break', 'neutral')
         self.name = name
         self.kind = kind          # 'break' must fire, 'neutral' must stay silent
@@ -20,18 +20,25 @@ class Variant(object):
         self.transform = transform
         self.expect = expect      # substring expected in rule or construct of the new finding
         self.note = note
+        self.also = list(also)   # further (path, transform) pairs for multi-file edits
 
     def overlay(self, idx):
-        text = idx.module(self.path).text
+        out = self._one(idx, self.path, self.transform)
+        for path, tr in self.also:
+            out.update(self._one(idx, path, tr))
+        return out
+
+    def _one(self, idx, path, transform):
+        text = idx.module(path).text
         tree = ast.parse(text)
-        r = self.transform(tree)
+        r = transform(tree)
         if r is False:
             raise AnalysisError('variant %s: transform found nothing to change' % self.name)
         ast.fix_missing_locations(tree)
         new = ast.unparse(tree)
         if new == ast.unparse(ast.parse(text)):
             raise AnalysisError('variant %s: transform changed nothing' % self.name)
-        return {self.path: new}
+        return {path: new}
 
 
 def find_def(tree, dotted):
